@@ -330,34 +330,59 @@ func (w *world) establish(e entryT, id *ids) error {
 		return nil
 	}
 	from := w.col.count(e.Dir)
-	for attempt := 0; attempt < 400; attempt++ {
+	type mark struct {
+		seq uint16
+		mk  uint32
+	}
+	var sent []mark
+	seenAny := func(ms []mark) bool {
+		for _, f := range w.col.since(e.Dir, from) {
+			for _, m := range ms {
+				if isMarker(e, f, m.seq, m.mk) {
+					return true
+				}
+			}
+		}
+		return false
+	}
+	// Back-off: the moment at which the path becomes live is not observable from outside, and the queue of
+	// a record session holds only 8 entries, so markers are sent sparingly; a full queue only means that the
+	// writer has not been started yet (the queued markers come out as soon as it is).
+	pause := 20 * time.Millisecond
+	deadline := time.Now().Add(sysx.HangLimit)
+	lastErr := error(nil)
+	for {
 		seq, mk, err, pn := w.sendMarker(e, id)
 		if pn != nil {
 			return fmt.Errorf("marker write panicked: %v", pn)
 		}
 		if err != nil {
-			return fmt.Errorf("marker refused: %w", err)
+			lastErr = err
+		} else {
+			sent = append(sent, mark{seq, mk})
 		}
-		ok := w.col.wait(25*time.Millisecond, func() bool {
-			for _, f := range w.col.since(e.Dir, from) {
-				if isMarker(e, f, seq, mk) {
-					return true
-				}
-			}
-			return false
-		})
-		if ok {
-			// everything up to here belongs to the harness
-			for _, f := range w.col.since(e.Dir, from) {
-				if f.Kind == e.Kind {
-					w.attr[e.Dir][f.Index] = true
-				}
-			}
-			w.live[e.Name] = true
-			return nil
+		if len(sent) > 0 && w.col.wait(pause, func() bool { return seenAny(sent) }) {
+			break
+		}
+		if len(sent) == 0 {
+			time.Sleep(pause) // liveness only
+		}
+		if time.Now().After(deadline) {
+			return fmt.Errorf("no marker of %s reached the wire (last marker error: %v)", e.Name, lastErr)
+		}
+		pause = min(2*pause, time.Second)
+	}
+	// the path is live: everything accepted from now on is queued, so the last accepted marker must come out
+	if !w.col.wait(sysx.HangLimit, func() bool { return seenAny(sent[len(sent)-1:]) }) {
+		return fmt.Errorf("the last marker of %s never reached the wire", e.Name)
+	}
+	for _, f := range w.col.since(e.Dir, from) { // everything up to here belongs to the harness
+		if f.Kind == e.Kind {
+			w.attr[e.Dir][f.Index] = true
 		}
 	}
-	return fmt.Errorf("no marker of %s reached the wire", e.Name)
+	w.live[e.Name] = true
+	return nil
 }
 
 type verdict struct {
